@@ -233,7 +233,11 @@ def judge_traces(rep, traces, wd, name):
             raise MachineryError('SiteTrace: expected %d states, TLC found %d\n%s' % (expect, r.distinct, r.out[-3000:]))
         for i, lst in part.items():
             failed[start + i] = sorted(set(lst))
-        drift += sum(1 for k, v in r.notes if k == 'DRIFT')
+        drift += len({(k, v.split(',')[0]) for k, v in r.notes if k in ('DRIFT', 'MODEL')})
+        for k, v in r.notes:
+            if k in ('DRIFT', 'MODEL'):
+                tid = int(v.split(',')[0])
+                log('NOTE C16 %s: site %s %s' % ('anchor drift' if k == 'DRIFT' else 'page differs from documented content', traces[start + tid - 1]['key'], v))
     return failed, drift
 
 
@@ -244,13 +248,13 @@ def run(tier):
     cbuild.repo_only()
     # (A) the documented site generator satisfies the invariants (sanity of the specification)
     cfg = 'Site_mcq.cfg' if tier == 'quick' else 'Site_mc.cfg'
-    r = tlc.model_check('doc', 'Site', cfg, timeout=3000, coverage=(tier != 'quick'))
+    r = tlc.model_check('doc', 'Site', cfg, timeout=3000, coverage=(tier == 'quick'))
     rep.add_tlc(r, cfg)
     rep.model_violation(r, cfg)
     never = [a for a, (d, n) in r.coverage.items() if n == 0]
     rep.extra['mc_actions_never_taken'] = never
-    if never:
-        raise MachineryError('Site %s: actions never taken: %s' % (cfg, never))
+    if never or r.depth < 12:
+        raise MachineryError('Site %s: actions never taken: %s (depth %d)' % (cfg, never, r.depth))
     if tier != 'quick':
         # the invariants are able to fail: the model of skoolkit's single-page remote operand links violates one
         r2 = tlc.model_check('doc', 'Site', 'Site_dev.cfg', timeout=3000, coverage=False)
@@ -259,7 +263,7 @@ def run(tier):
         if 'DocFragmentExists' not in r2.violated:
             raise MachineryError('Site_dev.cfg: the deviation model was expected to violate DocFragmentExists')
     # (B) recorded sites of the real skool2html
-    n = 480 if tier == 'quick' else 9600
+    n = 480 if tier == 'quick' else 8000
     seeds = [sd * 1000003 + i for i in range(n)]
     chunks = [(seeds[k::64], wd) for k in range(64)]
     with mp.get_context('fork').Pool(16) as pool:
@@ -270,8 +274,33 @@ def run(tier):
     rep.extra['sites_where_skool2html_raised'] = len(crashed)
     rep.extra['untracked_files'] = sum(t['meta']['untracked'] for t in traces)
     rep.extra['non_relative_links_ignored'] = sum(t['meta']['skipped_links'] for t in traces)
+    # (C) abstract sites built by TLC itself (-simulate of the constructor actions), rendered with nothing but the
+    #     abstract content: judged like the others, and page by page compared with the documented content (ModelDiff)
+    nsim = 400 if tier == 'quick' else 5000
+    rs, behaviours = tlc.simulate('doc', 'Site', 'Site_sim.cfg', os.path.join(wd, 'sim'), num=nsim, depth=40, seed=sd + 1, timeout=1200)
+    if rs.violated:
+        rep.model_violation(rs, 'Site_sim')
+    sims = sitedrv.sim_sites(behaviours)
+    uniq, seen = [], set()
+    for st in sims:
+        k = json.dumps(st, sort_keys=True)
+        if k not in seen:
+            seen.add(k)
+            uniq.append(st)
+    if len(uniq) < nsim // 10:
+        raise MachineryError('C16: only %d usable simulated sites out of %d behaviours\n%s' % (len(uniq), len(behaviours), rs.out[-1500:]))
+    chunks = [(uniq[k::32], k * 100000, wd) for k in range(32) if uniq[k::32]]
+    with mp.get_context('fork').Pool(16) as pool:
+        parts = pool.map(sitedrv.sim_worker, chunks)
+    simtraces = sorted((t for p in parts for t in p), key=lambda t: t['key'])
+    rep.extra['simulated_sites'] = len(simtraces)
+    rep.extra['simulated_behaviours'] = len(behaviours)
+    log('C16: %d TLC-built sites rendered' % len(simtraces))
+    nrand = len(traces)
+    traces = traces + simtraces
     failed, drift = judge_traces(rep, traces, wd, 'SiteTrace')
     rep.drift = drift
+    rep.extra['model_drift_sites'] = drift
     cnt = Counter()
     for t in traces:
         vacuity_classes(t, cnt)
@@ -287,9 +316,12 @@ def run(tier):
     rep.sample({'key': t0['key'], 'meta': t0['meta'], 'site': t0['site'], 'first_events': t0['ev'][:4]})
     for i, lst in sorted(failed.items()):
         t = traces[i]
-        S = sitedrv.gen_site(int(t['key'][1:]))
-        replay = {'seed': int(t['key'][1:]), 'runs': S['runs'], 'sources': {k: (v if isinstance(v, str) else repr(v)) for k, v in S['sources'].items()},
-                  'meta': t['meta'], 'failures': [c for _, c in lst],
+        if t['key'].startswith('sim'):
+            S = {'runs': [['-q']], 'sources': t['sources']}
+        else:
+            S = sitedrv.gen_site(int(t['key'][1:]))
+        replay = {'seed': t['key'], 'runs': S['runs'], 'sources': {k: (v if isinstance(v, str) else repr(v)) for k, v in S['sources'].items()},
+                  'meta': t['meta'], 'site': t['site'], 'failures': [c for _, c in lst],
                   'how': 'write sources to a directory, then for each argv in runs: skool2html.py <argv> -d out game.skool'}
         seen = set()
         for step, fail in lst:
@@ -316,7 +348,10 @@ def replay(path):
         d = json.load(f)
     rp = d['replay']
     wd = workdir('c16-replay')
-    S = sitedrv.gen_site(rp['seed'])
+    if str(rp['seed']).startswith('sim'):
+        S = dict(seed=0, runs=rp['runs'], sources=rp['sources'], tla=d.get('site') or rp.get('site'), meta=rp['meta'])
+    else:
+        S = sitedrv.gen_site(int(str(rp['seed']).lstrip('s')))
     t = sitedrv.run_site(S, os.path.join(wd, 'site'))
     rep = Report(PID, 'replay')
     failed, _ = judge_traces(rep, [t], wd, 'SiteTrace')
